@@ -516,11 +516,7 @@ func (self *Interpreter) memberExpression(node ast.AnalyzedMemberExpression) (*v
 			return value.NewValueOption(field), nil
 		}
 		if !found {
-			return nil, value.NewRuntimeErr(
-				"Called 'unwrap' on a 'null' option value",
-				value.ValueErrorKind,
-				node.Span(),
-			)
+			return nil, value.NewThrowInterrupt(node.Span(), "Called 'unwrap' on a 'null' option value")
 		}
 		return field, nil
 	}
